@@ -58,6 +58,55 @@ m("c12-decompress-concat", "mutant", "C12", SW, "                    if self._en
 m("c12-partial-lost-crlf", "mutant", "C12", SW, "                    partial = length_bytes + chunk + crlf", "                    partial = length_bytes + chunk")
 m("c12-upper-only", "mutant", "C12", SW, "int(length_bytes.strip(), 16)", "int(length_bytes.strip().replace(b\"e\", b\"f\"), 16)")
 
+# ---- C01 -------------------------------------------------------------------
+m("c01-hdr-mask", "mutant", "C01", RD, "(byte2[0] & ~0x03) == 0", "(byte2[0] & ~0x07) == 0")
+m("c01-hdr-mask-10bit", "mutant", "C01", RD, "(byte2[0] & ~0x03) == 0:\n                    (raw_data, parsed_data) = self._parse_rtcm3(bytehdr)", "(byte2[0] & ~0x13) == 0:\n                    (raw_data, parsed_data) = self._parse_rtcm3(bytes([0xD3, byte2[0] & 3]))")
+m("c01-crc-gate-len", "mutant", "C01", RD, "            if calc_crc24q(message):", "            if len(message) < 300 and calc_crc24q(message):")
+m("c01-payload-slice", "mutant", "C01", RD, "        payload = message[3:-3]", "        payload = message[3:-2]")
+m("c01-raw-no-hdr3", "mutant", "C02", RD, "        raw_data = hdr + hdr3 + payload + crc", "        raw_data = hdr + payload + crc")
+m("c01-crc-topbit", "mutant", "C01", RD, "            if calc_crc24q(message):", "            if calc_crc24q(message) and not message[-3] & 0x80:")
+m("c01-short-read-glue", "mutant", "C01", RD, "        if 0 < len(data) < size:  # truncated stream\n            raise RTCMStreamError(", "        if 0 < len(data) < size and size < 3:  # truncated stream\n            raise RTCMStreamError(")
+m("c01-stale-payload", "mutant", "C02", RD, "        payload = self._read_bytes(size)\n        crc = self._read_bytes(3)", "        payload = self._read_bytes(size)\n        self._last = getattr(self, \"_last\", payload) if size == 19 else payload\n        payload = self._last\n        crc = self._read_bytes(3)")
+# refactors
+m("c01-read-payload-crc-together", "refactor", "C01,C02,C05,C17,C04", RD, "        payload = self._read_bytes(size)\n        crc = self._read_bytes(3)", "        both = self._read_bytes(size + 3)\n        payload = both[:size]\n        crc = both[size:]")
+
+# ---- C02 -------------------------------------------------------------------
+m("c02-unfix-zero", "mutant", "C02", RD, "        if len(data) == 0 and size > 0:  # EOF", "        if len(data) == 0:  # EOF")
+m("c02-len-8bit", "mutant", "C02", RD, "        size = (hdr[1] << 8) | hdr3[0]", "        size = hdr3[0]")
+m("c02-len-9bit", "mutant", "C02", RD, "        size = (hdr[1] << 8) | hdr3[0]", "        size = ((hdr[1] & 1) << 8) | hdr3[0]")
+m("c02-ubx-bigendian", "mutant", "C02", RD, "int.from_bytes(lenb, \"little\", signed=False)", "int.from_bytes(lenb, \"big\", signed=False)")
+m("c02-ubx-no-cksum", "mutant", "C02", RD, "        byten = self._read_bytes(leni + 2)", "        byten = self._read_bytes(leni + 2) if leni else self._read_bytes(1)")
+m("c02-nmea-fixed", "mutant", "C02", RD, "        byten = self._read_line()  # NMEA protocol is CRLF-terminated", "        byten = self._read_bytes(10)")
+m("c02-ubx-return", "mutant", "C02", RD, "                    (raw_data, parsed_data) = self._parse_ubx(bytehdr)\n                    continue", "                    (raw_data, parsed_data) = self._parse_ubx(bytehdr)\n                    if len(raw_data) > 300:\n                        return (None, None)\n                    continue")
+m("c02-sw-slice", "mutant", "C02,C11", SW, "        self._buffer = self._buffer[num:]", "        self._buffer = self._buffer[num:] if num != 1023 else self._buffer[num - 1 :]")
+m("c02-nmea-talker-extended", "refactor", "C02,C01", "src/pyrtcm/rtcmtypes_core.py", "    b\"$W\",\n]", "    b\"$W\",\n    b\"$X\",\n]")
+m("c02-fillers-delivered", "refactor", "C02,C04,C01", MS, "        try:\n            _ = self.identity  # payload must at least contain the message identity\n        except IndexError as err:  # pragma: no cover", "        try:\n            _ = self.identity  # payload must at least contain the message identity\n            if len(payload) < 0:\n                raise IndexError\n        except IndexError as err:  # pragma: no cover")
+
+# ---- C04 -------------------------------------------------------------------
+m("c04-unfix-short", "mutant", "C04", MS, "            _ = self.identity  # payload must at least contain the message identity", "            _ = 1")
+m("c04-no-eof-catch", "mutant", "C04", RD, "            except EOFError:\n                return (None, None)", "            except MemoryError:\n                return (None, None)")
+m("c04-narrow-reader-except", "mutant", "C04", RD, "                RTCMStreamError,\n                RTCMTypeError,\n            ) as err:", "                RTCMStreamError,\n            ) as err:")
+m("c04-no-consume-loop", "mutant", "C04", RD, "                if byte1 not in (b\"\\xb5\", b\"\\x24\", b\"\\xd3\"):\n                    continue", "                if byte1 not in (b\"\\xb5\", b\"\\x24\", b\"\\xd3\"):\n                    if byte1 == b\"\\x0d\" and hasattr(self._stream, \"seek\"):\n                        self._stream.seek(-1, 1)\n                    continue")
+m("c04-narrow-doattr", "mutant", "C04", MS, "        except Exception as err:  # pragma: no cover\n            raise RTCMTypeError(", "        except (ValueError, KeyError) as err:  # pragma: no cover\n            raise RTCMTypeError(")
+m("c04-handler-fmt", "mutant", "C04", RD, "                    f\"RTCM3 message invalid - failed CRC: {message[-3:]}\"", "                    f\"RTCM3 message invalid - failed CRC: {message[-3:]} type {message[3] << 4 | message[4] >> 4}\"")
+m("c04-sw-narrow", "mutant", "C04", SW, "        except (OSError, TimeoutError):", "        except TimeoutError:")
+
+# ---- C05 -------------------------------------------------------------------
+m("c05-continue-return", "mutant", "C05", RD, "                if self._quitonerror:\n                    self._do_error(err)\n                continue", "                if self._quitonerror:\n                    self._do_error(err)\n                if isinstance(err, RTCMParseError) and self._quitonerror == 0:\n                    return (None, None)\n                continue")
+m("c05-handler-twice", "mutant", "C05", RD, "                self._errorhandler(err)", "                self._errorhandler(err)\n                if \"\\\\x00\" in str(err):\n                    self._errorhandler(err)")
+m("c05-handler-in-ignore", "mutant", "C05", RD, "                if self._quitonerror:\n                    self._do_error(err)", "                if self._quitonerror or self._errorhandler:\n                    self._do_error(err)\n                if not self._quitonerror and self._errorhandler:\n                    self._errorhandler(err)")
+m("c05-raise-as-log", "mutant", "C05", RD, "        if self._quitonerror == ERR_RAISE:\n            raise err from err", "        if self._quitonerror == ERR_RAISE and not self._errorhandler:\n            raise err from err")
+m("c05-crc-unread-on-fail", "mutant", "C05", RD, "        raw_data = hdr + hdr3 + payload + crc\n", "        raw_data = hdr + hdr3 + payload + crc\n        if size > 600 and hasattr(self._stream, \"seek\") and calc_crc24q(raw_data):\n            self._stream.seek(-3, 1)\n")
+m("c05-scan-for-d3", "mutant", "C05", RD, "                if self._quitonerror:\n                    self._do_error(err)\n                continue", "                if self._quitonerror:\n                    self._do_error(err)\n                if isinstance(err, RTCMParseError) and self._quitonerror == 1:\n                    self._read_bytes(1)\n                continue")
+m("c05-wrong-exc-type", "mutant", "C05", RD, "                raise RTCMParseError(\n                    f\"RTCM3 message invalid - failed CRC: {message[-3:]}\"", "                raise RTCMStreamError(\n                    f\"RTCM3 message invalid - failed CRC: {message[-3:]}\"")
+
+# ---- C17 -------------------------------------------------------------------
+m("c17-validate-only-if-labelmsm", "mutant", "C17", RD, "        if validate & VALCKSUM:", "        if validate & VALCKSUM or labelmsm == 2:")
+m("c17-parsed-false-skip-crc", "mutant", "C17", RD, "        crc = self._read_bytes(3)\n        raw_data = hdr + hdr3 + payload + crc", "        crc = self._read_bytes(3) if self._parsed else self._read_bytes(2) + b\"\\x00\"\n        raw_data = hdr + hdr3 + payload + crc")
+m("c17-validate0-slice", "mutant", "C17", RD, "        payload = message[3:-3]", "        payload = message[3:-3] if validate else message[3:]")
+m("c17-parsed-false-no-ubx", "mutant", "C17", RD, "                if bytehdr == UBX_HDR:", "                if bytehdr == UBX_HDR and self._parsed:")
+m("c17-validate0-labelmsm", "mutant", "C17", RD, "        return RTCMMessage(payload=payload, labelmsm=labelmsm)", "        return RTCMMessage(payload=payload, labelmsm=labelmsm if validate else 1)")
+
 
 def run(mid, kind, props, file, old, new, runs, tier, only_props):
     tmp = tempfile.mkdtemp(prefix="verif-mut-")
